@@ -941,13 +941,13 @@ Proof.
 Qed.
 
 Ltac hop_start R Hwf Hw Hok h Hh :=
-  unfold wf_op_sim in Hwf; apply andb_true_iff in Hwf as [Hw Hok]; cbn [wf_op] in Hw;
+  unfold wf_op_simx in Hwf; apply andb_true_iff in Hwf as [Hw Hok]; cbn [wf_op] in Hw;
   unfold sim_raw; cbn [m_step_raw p_step]; unfold m_hop;
   match goal with |- context [nth_error (mhandles ?s) ?i] =>
     destruct (nth_error (mhandles s) i) as [h|] eqn:Hh;
     [|rewrite (F2_nth_none _ _ _ i (rs_handles _ _ R) Hh); split; [exact R | reflexivity]] end.
 
-Lemma sim_hread s t i n : Rsim s t -> wf_op_sim s (HRead i n) = true -> sim_raw s t (HRead i n).
+Lemma sim_hread s t i n : Rsim s t -> wf_op_simx s (HRead i n) = true -> sim_raw s t (HRead i n).
 Proof.
   intros R Hwf. hop_start R Hwf Hw Hok h Hh. apply Z.leb_le in Hw.
   destruct (handle_file s t i h R Hh Hok) as (x & nd & d & pm & Hx & Hr & Hn & Hp & Hi & Hd).
@@ -964,7 +964,7 @@ Proof.
     cbn in F1, F2, F3. repeat split; cbn; congruence.
 Qed.
 
-Lemma sim_hreadat s t i n off : Rsim s t -> wf_op_sim s (HReadAt i n off) = true -> sim_raw s t (HReadAt i n off).
+Lemma sim_hreadat s t i n off : Rsim s t -> wf_op_simx s (HReadAt i n off) = true -> sim_raw s t (HReadAt i n off).
 Proof.
   intros R Hwf. hop_start R Hwf Hw Hok h Hh. apply Z.leb_le in Hw.
   destruct (handle_file s t i h R Hh Hok) as (x & nd & d & pm & Hx & Hr & Hn & Hp & Hi & Hd).
@@ -1006,14 +1006,14 @@ Proof.
       * rewrite <- E1. exact Hn.
 Qed.
 
-Lemma sim_hwrite s t i b : Rsim s t -> wf_op_sim s (HWrite i b) = true -> sim_raw s t (HWrite i b).
-Proof. intros R Hwf. unfold wf_op_sim in Hwf. apply andb_true_iff in Hwf as [_ Hok]. now apply (sim_write_gen s t i b (HWrite i b)). Qed.
-Lemma sim_hwritestring s t i b : Rsim s t -> wf_op_sim s (HWriteString i b) = true -> sim_raw s t (HWriteString i b).
+Lemma sim_hwrite s t i b : Rsim s t -> wf_op_simx s (HWrite i b) = true -> sim_raw s t (HWrite i b).
+Proof. intros R Hwf. unfold wf_op_simx in Hwf. apply andb_true_iff in Hwf as [_ Hok]. now apply (sim_write_gen s t i b (HWrite i b)). Qed.
+Lemma sim_hwritestring s t i b : Rsim s t -> wf_op_simx s (HWriteString i b) = true -> sim_raw s t (HWriteString i b).
 Proof.
-  intros R Hwf. unfold wf_op_sim in Hwf. apply andb_true_iff in Hwf as [_ Hok]. apply (sim_write_gen s t i b (HWriteString i b)); auto.
+  intros R Hwf. unfold wf_op_simx in Hwf. apply andb_true_iff in Hwf as [_ Hok]. apply (sim_write_gen s t i b (HWriteString i b)); auto.
 Qed.
 
-Lemma sim_hwriteat s t i b off : Rsim s t -> wf_op_sim s (HWriteAt i b off) = true -> sim_raw s t (HWriteAt i b off).
+Lemma sim_hwriteat s t i b off : Rsim s t -> wf_op_simx s (HWriteAt i b off) = true -> sim_raw s t (HWriteAt i b off).
 Proof.
   intros R Hwf. hop_start R Hwf Hw Hok h Hh.
   destruct (handle_file s t i h R Hh Hok) as (x & nd & d & pm & Hx & Hr & Hn & Hp & Hi & Hd).
@@ -1030,7 +1030,7 @@ Proof.
   destruct Hr as (E1 & _). rewrite <- Hdat, E1. apply (Rsim_put_data _ t (pino x) nd d pm dopt); auto. rewrite <- E1. exact Hn.
 Qed.
 
-Lemma sim_hseek s t i off wh : Rsim s t -> wf_op_sim s (HSeek i off wh) = true -> sim_raw s t (HSeek i off wh).
+Lemma sim_hseek s t i off wh : Rsim s t -> wf_op_simx s (HSeek i off wh) = true -> sim_raw s t (HSeek i off wh).
 Proof.
   intros R Hwf. hop_start R Hwf Hw Hok h Hh.
   destruct (handle_file s t i h R Hh Hok) as (x & nd & d & pm & Hx & Hr & Hn & Hp & Hi & Hd).
@@ -1048,7 +1048,7 @@ Proof.
       cbn in F1, F2, F3. repeat split; cbn; congruence.
 Qed.
 
-Lemma sim_htruncate s t i n : Rsim s t -> wf_op_sim s (HTruncate i n) = true -> sim_raw s t (HTruncate i n).
+Lemma sim_htruncate s t i n : Rsim s t -> wf_op_simx s (HTruncate i n) = true -> sim_raw s t (HTruncate i n).
 Proof.
   intros R Hwf. hop_start R Hwf Hw Hok h Hh.
   destruct (handle_file s t i h R Hh Hok) as (x & nd & d & pm & Hx & Hr & Hn & Hp & Hi & Hd).
@@ -1077,7 +1077,7 @@ Proof.
   exists x, nd, y. repeat split; auto; try apply Hr. destruct Hr as (E & _). now rewrite <- E.
 Qed.
 
-Lemma sim_hclose s t i : Rsim s t -> wf_op_sim s (HClose i) = true -> sim_raw s t (HClose i).
+Lemma sim_hclose s t i : Rsim s t -> wf_op_simx s (HClose i) = true -> sim_raw s t (HClose i).
 Proof.
   intros R Hwf. hop_start R Hwf Hw Hok h Hh.
   destruct (handle_any s t i h R Hh Hok) as (x & nd & y & Hx & Hr & Hn & Hp & Hi). rewrite Hx, Hn.
@@ -1088,7 +1088,7 @@ Proof.
   destruct (hro h); [exact Rs|]. apply Rsim_core; [exact Rs | apply keeps_mtime | reflexivity].
 Qed.
 
-Lemma sim_hstat s t i : Rsim s t -> wf_op_sim s (HStat i) = true -> sim_raw s t (HStat i).
+Lemma sim_hstat s t i : Rsim s t -> wf_op_simx s (HStat i) = true -> sim_raw s t (HStat i).
 Proof.
   intros R Hwf. hop_start R Hwf Hw Hok h Hh.
   destruct (handle_any s t i h R Hh Hok) as (x & nd & y & Hx & Hr & Hn & Hp & Hi). rewrite Hx, Hn, Hp.
@@ -1097,12 +1097,12 @@ Proof.
   - destruct Hi as (Hd & Hdat & _). rewrite Hd, Hdat, zlen_to_nat. split; [exact R | reflexivity].
 Qed.
 
-Lemma sim_hsync s t i : Rsim s t -> wf_op_sim s (HSync i) = true -> sim_raw s t (HSync i).
+Lemma sim_hsync s t i : Rsim s t -> wf_op_simx s (HSync i) = true -> sim_raw s t (HSync i).
 Proof.
   intros R Hwf. hop_start R Hwf Hw Hok h Hh.
   destruct (handle_any s t i h R Hh Hok) as (x & nd & y & Hx & Hr & Hn & Hp & Hi). rewrite Hx, Hn. split; [exact R | reflexivity].
 Qed.
-Lemma sim_hname s t i : Rsim s t -> wf_op_sim s (HName i) = true -> sim_raw s t (HName i).
+Lemma sim_hname s t i : Rsim s t -> wf_op_simx s (HName i) = true -> sim_raw s t (HName i).
 Proof.
   intros R Hwf. hop_start R Hwf Hw Hok h Hh.
   destruct (handle_any s t i h R Hh Hok) as (x & nd & y & Hx & Hr & Hn & Hp & Hi). rewrite Hx, Hn. split; [exact R | reflexivity].
@@ -1154,11 +1154,11 @@ Proof.
   - now exists k'.
 Qed.
 
-Lemma sim_readdir nm s t i n : Rsim s t -> wf_op_sim s (rdop nm i n) = true -> sim_raw s t (rdop nm i n).
+Lemma sim_readdir nm s t i n : Rsim s t -> wf_op_simx s (rdop nm i n) = true -> sim_raw s t (rdop nm i n).
 Proof.
   intros R Hwf. pose proof R as [W T N H Hs].
   assert (Hok : dir_handle_ok s i = true).
-  { unfold wf_op_sim in Hwf. apply andb_true_iff in Hwf as [_ Hok]. now destruct nm. }
+  { unfold wf_op_simx in Hwf. apply andb_true_iff in Hwf as [_ Hok]. now destruct nm. }
   unfold sim_raw.
   assert (Ep : p_step t (rdop nm i n) = p_step t (HReaddirnames i n)) by (destruct nm; reflexivity). rewrite Ep. cbn [p_step].
   destruct (nth_error (mhandles s) i) as [h|] eqn:Hh.
@@ -1194,9 +1194,9 @@ Proof.
 Qed.
 
 (* ---------- every well-formed call ---------- *)
-Theorem sim_step_raw s t o : Rsim s t -> wf_op_sim s o = true -> sim_raw s t o.
+Theorem sim_step_raw s t o : Rsim s t -> wf_op_simx s o = true -> sim_raw s t o.
 Proof.
-  intros R Hwf. assert (Hw : wf_op s o = true) by (unfold wf_op_sim in Hwf; now apply andb_true_iff in Hwf as [Hw _]).
+  intros R Hwf. assert (Hw : wf_op s o = true) by (unfold wf_op_simx in Hwf; now apply andb_true_iff in Hwf as [Hw _]).
   destruct o.
   - now apply sim_create.
   - now apply sim_mkdir.
@@ -1225,7 +1225,7 @@ Proof.
   - now apply sim_hsync.
 Qed.
 
-Theorem sim_step s t o : Rsim s t -> wf_op_sim s o = true ->
+Theorem sim_step s t o : Rsim s t -> wf_op_simx s o = true ->
   Rsim (fst (m_step s o)) (fst (p_step t o)) /\ mproj o (snd (m_step s o)) = snd (p_step t o).
 Proof.
   intros R Hwf. destruct (sim_step_raw s t o R Hwf) as [R' Hp]. unfold m_step.
@@ -1235,12 +1235,12 @@ Qed.
 
 Definition mproj_all (ops : list op) (outs : list res) : list pout := map (fun '(o, r) => mproj o r) (combine ops outs).
 
-Theorem sim_run : forall ops s t, Rsim s t -> wf_seq_sim s ops = true ->
+Theorem sim_run : forall ops s t, Rsim s t -> wf_seq_simx s ops = true ->
   mproj_all ops (snd (run_steps m_step s ops)) = snd (p_run t ops) /\
   Rsim (fst (run_steps m_step s ops)) (fst (p_run t ops)).
 Proof.
   induction ops as [|o ops IH]; intros s t R Hseq; [split; [reflexivity | exact R]|].
-  cbn [wf_seq_sim] in Hseq. apply andb_true_iff in Hseq as [Ho Hr].
+  cbn [wf_seq_simx] in Hseq. apply andb_true_iff in Hseq as [Ho Hr].
   destruct (sim_step s t o R Ho) as [R1 Hp]. cbn [run_steps p_run].
   destruct (m_step s o) as [s1 x]. destruct (p_step t o) as [t1 px]. cbn [fst snd] in *.
   destruct (IH s1 t1 R1 Hr) as [Hps R']. destruct (run_steps m_step s1 ops) as [s2 xs]. destruct (p_run t1 ops) as [t2 pxs].
@@ -1283,7 +1283,7 @@ Proof.
     + now apply (listing_is_children s d r n (rs_wf _ _ R)).
 Qed.
 
-Theorem simulation ops : wf_seq_sim m_init ops = true ->
+Theorem simulation ops : wf_seq_simx m_init ops = true ->
   mproj_all ops (snd (run_steps m_step m_init ops)) = snd (p_run p_init ops) /\
   Observe (fst (run_steps m_step m_init ops)) (fst (p_run p_init ops)).
 Proof.
